@@ -9,6 +9,7 @@ import (
 	"go/token"
 	"os"
 	"path/filepath"
+	"regexp"
 	"sort"
 	"strconv"
 	"strings"
@@ -44,6 +45,25 @@ func (t *tr) varValue(name string) ast.Expr {
 	}
 	t.fail("declaration %s not found", name)
 	return nil
+}
+
+func pkgVarExists(t *tr, name string) (ast.Expr, bool) {
+	for _, f := range t.files {
+		for _, d := range f.Decls {
+			if gd, ok := d.(*ast.GenDecl); ok {
+				for _, sp := range gd.Specs {
+					if vs, ok := sp.(*ast.ValueSpec); ok {
+						for i, n := range vs.Names {
+							if n.Name == name && i < len(vs.Values) {
+								return vs.Values[i], true
+							}
+						}
+					}
+				}
+			}
+		}
+	}
+	return nil, false
 }
 
 func (t *tr) funcDecl(name string) *ast.FuncDecl {
@@ -196,6 +216,17 @@ func (t *tr) withCallees(fd *ast.FuncDecl, depth int) []*ast.FuncDecl {
 
 func normExpr(s string) string { return strings.ToLower(strings.ReplaceAll(s, " ", "")) }
 
+// sameShape: equal after normalisation, `*` in the pattern standing for any identifier (a receiver or parameter name)
+func sameShape(pattern, got string) bool {
+	p, g := normExpr(pattern), normExpr(got)
+	if !strings.Contains(p, "*") {
+		return p == g
+	}
+	re := "^" + strings.ReplaceAll(regexp.QuoteMeta(p), `\*`, `[a-z0-9_]+`) + "$"
+	ok, err := regexp.MatchString(re, g)
+	return err == nil && ok
+}
+
 func coqStr(s string) string { return `"` + strings.ReplaceAll(s, `"`, `""`) + `"` }
 
 func coqStrList(l []string) string {
@@ -322,9 +353,48 @@ func (t *tr) eqStrings(fn string) []string {
 	}
 	collect(fd.Body)
 	if len(res) == 0 {
-		for _, g := range t.withCallees(fd, 2)[1:] {
-			if g.Body != nil {
-				collect(g.Body)
+		// `return classify(n) == K`: the labels of the case clauses of `classify` that return K (nothing is guessed when
+		// the shape is any other: a helper may classify several families at once)
+		var callee, kind string
+		ast.Inspect(fd.Body, func(n ast.Node) bool {
+			if be, ok := n.(*ast.BinaryExpr); ok && be.Op == token.EQL {
+				if ce, ok := be.X.(*ast.CallExpr); ok {
+					if f, ok := ce.Fun.(*ast.Ident); ok {
+						if k, ok := be.Y.(*ast.Ident); ok {
+							callee, kind = f.Name, k.Name
+						}
+					}
+				}
+			}
+			return true
+		})
+		if callee != "" {
+			for _, g := range t.withCallees(fd, 1)[1:] {
+				if g.Name.Name != callee || g.Body == nil {
+					continue
+				}
+				ast.Inspect(g.Body, func(n ast.Node) bool {
+					cc, ok := n.(*ast.CaseClause)
+					if !ok {
+						return true
+					}
+					returnsKind := false
+					for _, st := range cc.Body {
+						if rs, ok := st.(*ast.ReturnStmt); ok && len(rs.Results) == 1 {
+							if id, ok := rs.Results[0].(*ast.Ident); ok && id.Name == kind {
+								returnsKind = true
+							}
+						}
+					}
+					if returnsKind {
+						for _, e := range cc.List {
+							if s, ok := strLit(e); ok {
+								res = append(res, s)
+							}
+						}
+					}
+					return true
+				})
 			}
 		}
 	}
@@ -345,22 +415,21 @@ func (t *tr) cmpConst(fn, xs string, op token.Token) int64 {
 	// (no strict/non-strict rewriting: `x >= n` next to an expected `x > n` may just as well be the opposite bound of a
 	// range test written the other way round, and a wrongly read constant would be worse than an unread one)
 	assignOp := map[token.Token]token.Token{token.MUL: token.MUL_ASSIGN, token.ADD: token.ADD_ASSIGN}
-	want := normExpr(xs)
 	scan := func(body *ast.BlockStmt) {
 		ast.Inspect(body, func(n ast.Node) bool {
 			switch x := n.(type) {
 			case *ast.BinaryExpr:
-				if x.Op == op && normExpr(exprString(x.X)) == want {
+				if x.Op == op && sameShape(xs, exprString(x.X)) {
 					if v, ok := intLit(x.Y); ok {
 						found = append(found, v)
 					}
-				} else if f, ok := flip[op]; ok && x.Op == f && normExpr(exprString(x.Y)) == want {
+				} else if f, ok := flip[op]; ok && x.Op == f && sameShape(xs, exprString(x.Y)) {
 					if v, ok := intLit(x.X); ok {
 						found = append(found, v)
 					}
 				}
 			case *ast.AssignStmt: // res *= 10000
-				if ao, ok := assignOp[op]; ok && x.Tok == ao && len(x.Lhs) == 1 && len(x.Rhs) == 1 && normExpr(exprString(x.Lhs[0])) == want {
+				if ao, ok := assignOp[op]; ok && x.Tok == ao && len(x.Lhs) == 1 && len(x.Rhs) == 1 && sameShape(xs, exprString(x.Lhs[0])) {
 					if v, ok := intLit(x.Rhs[0]); ok {
 						found = append(found, v)
 					}
@@ -531,10 +600,53 @@ func main() {
 		t.fail("optimizerMap is not a composite literal")
 	}
 	fmt.Fprintf(&b, "Definition opt_all_switch : string := %s.\n\n", coqStr(t.constString("Optimize")))
-	fmt.Fprintf(&b, "Definition keywords : list string := %s.\n", coqStrList(strList("keywords")))
+	// the keyword list: the array `keywords`, or (when the lookup became a switch) the case labels of isKeyword
+	kwList := func() []string {
+		if _, ok := pkgVarExists(t, "keywords"); ok {
+			return strList("keywords")
+		}
+		var res []string
+		for _, f := range t.files {
+			for _, d := range f.Decls {
+				fd, ok := d.(*ast.FuncDecl)
+				if !ok || fd.Name.Name != "isKeyword" || fd.Body == nil {
+					continue
+				}
+				ast.Inspect(fd.Body, func(n ast.Node) bool {
+					if cc, ok := n.(*ast.CaseClause); ok {
+						for _, e := range cc.List {
+							if s, ok := strLit(e); ok {
+								res = append(res, s)
+							} else if id, ok := e.(*ast.Ident); ok {
+								res = append(res, t.constString(id.Name))
+							} else if ce, ok := e.(*ast.CallExpr); ok && len(ce.Args) == 1 { // keyword(keywordIf)
+								if id, ok := ce.Args[0].(*ast.Ident); ok {
+									res = append(res, t.constString(id.Name))
+								}
+							}
+						}
+					}
+					return true
+				})
+			}
+		}
+		if len(res) == 0 {
+			t.fail("keywords: neither the array nor a switch in isKeyword found")
+		}
+		return res
+	}
+	fmt.Fprintf(&b, "Definition keywords : list string := %s.\n", coqStrList(kwList()))
 	fmt.Fprintf(&b, "Definition keyword_if : string := %s.\n\n", coqStr(t.constString("keywordIf")))
-	fmt.Fprintf(&b, "Definition and_aliases : list string := %s.\n", coqStrList(t.eqStrings("isAndOpNode")))
-	fmt.Fprintf(&b, "Definition or_aliases : list string := %s.\n\n", coqStrList(t.eqStrings("isOrOpNode")))
+	andAl, orAl := t.eqStrings("isAndOpNode"), t.eqStrings("isOrOpNode")
+	for _, x := range andAl {
+		for _, y := range orAl {
+			if x == y {
+				t.fail("isAndOpNode/isOrOpNode: the alias sets read from the source overlap (%s): not recognised", x)
+			}
+		}
+	}
+	fmt.Fprintf(&b, "Definition and_aliases : list string := %s.\n", coqStrList(andAl))
+	fmt.Fprintf(&b, "Definition or_aliases : list string := %s.\n\n", coqStrList(orAl))
 
 	// builtin constants
 	if cl, ok := t.varValue("builtinConstants").(*ast.CompositeLit); ok {
@@ -633,7 +745,7 @@ func main() {
 		name string
 		v    int64
 	}{
-		{"max_children", t.cmpConst("check", "len(root.children)", token.GTR)},
+		{"max_children", t.cmpConst("check", "len(*.children)", token.GTR)},
 		{"max_nodes", t.cmpConst("check", "size", token.GTR)},
 		{"stack_small", t.stackClass("Eval", 0)},
 		{"stack_mid", t.stackClass("Eval", 1)},
